@@ -137,7 +137,7 @@ SPECS['C15'] = {
     'technique': 'exhaustive enumeration of field grids for issued certificates / requests / CRLs, the full key x signer-ID verification matrix, every single-bit modification of issued objects, all serial queries against all CRL subsets, on the real code',
     'claim': 'Every object issued over the field grid parses back to exactly the supplied fields; it verifies iff the issuer key and the signer ID it was issued under are used (4 IDs incl. prefix / NUL-extended forms); no single-bit modification of a certificate, request or CRL still verifies; CRL lookup reports a serial revoked exactly when listed, for all subsets of prefix-related serials.',
     'trusted': 'the library parses its own output (field comparison is against the values handed to the issuing call); SM2 signature soundness is C01',
-    'rule': 'certs: serial lengths {1,2,8,19,20} x top bit x 5 validity windows (now, 2049, 2049/2050 straddle, 2050, 2100) x 8 extension sets x 2 signer IDs: all fields compared, UTCTime/GeneralizedTime choice, 2x4 verification matrix, every bit flip for selected objects (thorough: all); requests: 4 signer IDs x 3 names, ID matrix, bit flips, subject key different from the signing key; extension sizes: dNSName lengths 1..8, 100..140, 235..270, 300 in subjectAltName / issuerAltName (block well-formed, every extension found again); CRLs: 16 subsets of 4 prefix-related serials x 2 IDs, 7 serial queries each, fields, matrix, bit flips. distinct = (object parameters, verification attempt / flipped bit / query). Blocks crl-entry-extensions, CRLs without nextUpdate, extension-builders-append (20 builders x predecessors).',
+    'rule': 'certs: serial lengths {1,2,8,19,20} x top bit x 5 validity windows (now, 2049, 2049/2050 straddle, 2050, 2100) x 8 extension sets x 2 signer IDs: all fields compared, UTCTime/GeneralizedTime choice, 2x4 verification matrix, every bit flip for selected objects (thorough: all); requests: 4 signer IDs x 3 names, ID matrix, bit flips, subject key different from the signing key; extension sizes: dNSName lengths 1..8, 100..140, 235..270, 300 in subjectAltName / issuerAltName (block well-formed, every extension found again); CRLs: 16 subsets of 4 prefix-related serials x 2 IDs, 7 serial queries each, fields, matrix, bit flips. distinct = (object parameters, verification attempt / flipped bit / query). Blocks crl-entry-extensions, CRLs without nextUpdate, extension-builders-append (20 builders x predecessors). Block user-notice (UserNotice qualifier in its three forms read into variables holding a previous notice).',
     'bound': {'quick': 'grid thinned to ~1/3 for certificates; bit flips on 4 certificates, 2 requests, 4 CRLs', 'thorough': 'full grid, bit flips on every object'},
     'assumptions': ['multi-bit modifications out of scope'],
     'quick': [J('c15', 'fast', srcs=['harness/venv.c']), J('c15', 'asan', srcs=['harness/venv.c'], deadline=110)],
